@@ -12,6 +12,128 @@ package ringqp
 //@   ensures val(polyOutQ) == old(val(polyInQ)) && val(polyOutP) == old(val(polyInQ))
 //@   ensures mexp(polyOutQ) == 0 && mexp(polyOutP) == 0 && dom(polyOutQ) == 0 && dom(polyOutP) == 0
 
+// ---- the QP wrappers (property C01): each delegates to the same operation on RingQ with the .Q
+// ---- parts and on RingP with the .P parts; stated on ring elements: what the wrapper's documentation
+// ---- says, on both bases, whichever of the two rings is present
+//@ afunc Ring.Add#qp
+//@   property C01
+//@   nilable
+//@   requires ((isntt(p1.Q) && isntt(p2.Q)) || (iscoef(p1.Q) && iscoef(p2.Q))) && mexp(p1.Q) == mexp(p2.Q) && ((isntt(p1.P) && isntt(p2.P)) || (iscoef(p1.P) && iscoef(p2.P))) && mexp(p1.P) == mexp(p2.P)
+//@   ensures implies(!isnil(r.RingQ), val(p3.Q) == old(val(p1.Q)) + old(val(p2.Q)) && mexp(p3.Q) == old(mexp(p1.Q)))
+//@   ensures implies(!isnil(r.RingP), val(p3.P) == old(val(p1.P)) + old(val(p2.P)) && mexp(p3.P) == old(mexp(p1.P)))
+
+//@ afunc Ring.AddLazy#qp
+//@   property C01
+//@   nilable
+//@   requires ((isntt(p1.Q) && isntt(p2.Q)) || (iscoef(p1.Q) && iscoef(p2.Q))) && mexp(p1.Q) == mexp(p2.Q) && ((isntt(p1.P) && isntt(p2.P)) || (iscoef(p1.P) && iscoef(p2.P))) && mexp(p1.P) == mexp(p2.P)
+//@   ensures implies(!isnil(r.RingQ), val(p3.Q) == old(val(p1.Q)) + old(val(p2.Q)) && mexp(p3.Q) == old(mexp(p1.Q)))
+//@   ensures implies(!isnil(r.RingP), val(p3.P) == old(val(p1.P)) + old(val(p2.P)) && mexp(p3.P) == old(mexp(p1.P)))
+
+//@ afunc Ring.Sub#qp
+//@   property C01
+//@   nilable
+//@   requires ((isntt(p1.Q) && isntt(p2.Q)) || (iscoef(p1.Q) && iscoef(p2.Q))) && mexp(p1.Q) == mexp(p2.Q) && ((isntt(p1.P) && isntt(p2.P)) || (iscoef(p1.P) && iscoef(p2.P))) && mexp(p1.P) == mexp(p2.P)
+//@   ensures implies(!isnil(r.RingQ), val(p3.Q) == old(val(p1.Q)) - old(val(p2.Q)) && mexp(p3.Q) == old(mexp(p1.Q)))
+//@   ensures implies(!isnil(r.RingP), val(p3.P) == old(val(p1.P)) - old(val(p2.P)) && mexp(p3.P) == old(mexp(p1.P)))
+
+//@ afunc Ring.Neg#qp
+//@   property C01
+//@   nilable
+//@   requires true && true
+//@   ensures implies(!isnil(r.RingQ), val(p2.Q) == 0 - old(val(p1.Q)) && mexp(p2.Q) == old(mexp(p1.Q)) && dom(p2.Q) == old(dom(p1.Q)))
+//@   ensures implies(!isnil(r.RingP), val(p2.P) == 0 - old(val(p1.P)) && mexp(p2.P) == old(mexp(p1.P)) && dom(p2.P) == old(dom(p1.P)))
+
+//@ afunc Ring.Reduce#qp
+//@   property C01
+//@   nilable
+//@   requires true && true
+//@   ensures implies(!isnil(r.RingQ), val(p2.Q) == old(val(p1.Q)) && mexp(p2.Q) == old(mexp(p1.Q)) && dom(p2.Q) == old(dom(p1.Q)))
+//@   ensures implies(!isnil(r.RingP), val(p2.P) == old(val(p1.P)) && mexp(p2.P) == old(mexp(p1.P)) && dom(p2.P) == old(dom(p1.P)))
+
+//@ afunc Ring.NTT#qp
+//@   property C01
+//@   nilable
+//@   requires iscoef(p1.Q) && iscoef(p1.P)
+//@   ensures implies(!isnil(r.RingQ), val(p2.Q) == old(val(p1.Q)) && mexp(p2.Q) == old(mexp(p1.Q)) && dom(p2.Q) == 1)
+//@   ensures implies(!isnil(r.RingP), val(p2.P) == old(val(p1.P)) && mexp(p2.P) == old(mexp(p1.P)) && dom(p2.P) == 1)
+
+//@ afunc Ring.NTTLazy#qp
+//@   property C01
+//@   nilable
+//@   requires iscoef(p1.Q) && iscoef(p1.P)
+//@   ensures implies(!isnil(r.RingQ), val(p2.Q) == old(val(p1.Q)) && mexp(p2.Q) == old(mexp(p1.Q)) && dom(p2.Q) == 1)
+//@   ensures implies(!isnil(r.RingP), val(p2.P) == old(val(p1.P)) && mexp(p2.P) == old(mexp(p1.P)) && dom(p2.P) == 1)
+
+//@ afunc Ring.INTT#qp
+//@   property C01
+//@   nilable
+//@   requires isntt(p1.Q) && isntt(p1.P)
+//@   ensures implies(!isnil(r.RingQ), val(p2.Q) == old(val(p1.Q)) && mexp(p2.Q) == old(mexp(p1.Q)) && dom(p2.Q) == 0)
+//@   ensures implies(!isnil(r.RingP), val(p2.P) == old(val(p1.P)) && mexp(p2.P) == old(mexp(p1.P)) && dom(p2.P) == 0)
+
+//@ afunc Ring.INTTLazy#qp
+//@   property C01
+//@   nilable
+//@   requires isntt(p1.Q) && isntt(p1.P)
+//@   ensures implies(!isnil(r.RingQ), val(p2.Q) == old(val(p1.Q)) && mexp(p2.Q) == old(mexp(p1.Q)) && dom(p2.Q) == 0)
+//@   ensures implies(!isnil(r.RingP), val(p2.P) == old(val(p1.P)) && mexp(p2.P) == old(mexp(p1.P)) && dom(p2.P) == 0)
+
+//@ afunc Ring.MForm#qp
+//@   property C01
+//@   nilable
+//@   requires true && true
+//@   ensures implies(!isnil(r.RingQ), val(p2.Q) == old(val(p1.Q)) && mexp(p2.Q) == old(mexp(p1.Q)) + 1 && dom(p2.Q) == old(dom(p1.Q)))
+//@   ensures implies(!isnil(r.RingP), val(p2.P) == old(val(p1.P)) && mexp(p2.P) == old(mexp(p1.P)) + 1 && dom(p2.P) == old(dom(p1.P)))
+
+//@ afunc Ring.IMForm#qp
+//@   property C01
+//@   nilable
+//@   requires true && true
+//@   ensures implies(!isnil(r.RingQ), val(p2.Q) == old(val(p1.Q)) && mexp(p2.Q) == old(mexp(p1.Q)) - 1 && dom(p2.Q) == old(dom(p1.Q)))
+//@   ensures implies(!isnil(r.RingP), val(p2.P) == old(val(p1.P)) && mexp(p2.P) == old(mexp(p1.P)) - 1 && dom(p2.P) == old(dom(p1.P)))
+
+//@ afunc Ring.MulCoeffsMontgomery#qp
+//@   property C01
+//@   nilable
+//@   requires isntt(p1.Q) && isntt(p2.Q) && isntt(p1.P) && isntt(p2.P)
+//@   ensures implies(!isnil(r.RingQ), val(p3.Q) == old(val(p1.Q)) * old(val(p2.Q)) && mexp(p3.Q) == old(mexp(p1.Q)) + old(mexp(p2.Q)) - 1 && dom(p3.Q) == 1)
+//@   ensures implies(!isnil(r.RingP), val(p3.P) == old(val(p1.P)) * old(val(p2.P)) && mexp(p3.P) == old(mexp(p1.P)) + old(mexp(p2.P)) - 1 && dom(p3.P) == 1)
+
+//@ afunc Ring.MulCoeffsMontgomeryLazy#qp
+//@   property C01
+//@   nilable
+//@   requires isntt(p1.Q) && isntt(p2.Q) && isntt(p1.P) && isntt(p2.P)
+//@   ensures implies(!isnil(r.RingQ), val(p3.Q) == old(val(p1.Q)) * old(val(p2.Q)) && mexp(p3.Q) == old(mexp(p1.Q)) + old(mexp(p2.Q)) - 1 && dom(p3.Q) == 1)
+//@   ensures implies(!isnil(r.RingP), val(p3.P) == old(val(p1.P)) * old(val(p2.P)) && mexp(p3.P) == old(mexp(p1.P)) + old(mexp(p2.P)) - 1 && dom(p3.P) == 1)
+
+//@ afunc Ring.MulCoeffsMontgomeryThenAdd#qp
+//@   property C01
+//@   nilable
+//@   requires isntt(p1.Q) && isntt(p2.Q) && isntt(p3.Q) && mexp(p3.Q) == mexp(p1.Q) + mexp(p2.Q) - 1 && isntt(p1.P) && isntt(p2.P) && isntt(p3.P) && mexp(p3.P) == mexp(p1.P) + mexp(p2.P) - 1
+//@   ensures implies(!isnil(r.RingQ), val(p3.Q) == old(val(p3.Q)) + old(val(p1.Q)) * old(val(p2.Q)) && mexp(p3.Q) == old(mexp(p3.Q)) && dom(p3.Q) == 1)
+//@   ensures implies(!isnil(r.RingP), val(p3.P) == old(val(p3.P)) + old(val(p1.P)) * old(val(p2.P)) && mexp(p3.P) == old(mexp(p3.P)) && dom(p3.P) == 1)
+
+//@ afunc Ring.MulCoeffsMontgomeryLazyThenAddLazy#qp
+//@   property C01
+//@   nilable
+//@   requires isntt(p1.Q) && isntt(p2.Q) && isntt(p3.Q) && mexp(p3.Q) == mexp(p1.Q) + mexp(p2.Q) - 1 && isntt(p1.P) && isntt(p2.P) && isntt(p3.P) && mexp(p3.P) == mexp(p1.P) + mexp(p2.P) - 1
+//@   ensures implies(!isnil(r.RingQ), val(p3.Q) == old(val(p3.Q)) + old(val(p1.Q)) * old(val(p2.Q)) && mexp(p3.Q) == old(mexp(p3.Q)) && dom(p3.Q) == 1)
+//@   ensures implies(!isnil(r.RingP), val(p3.P) == old(val(p3.P)) + old(val(p1.P)) * old(val(p2.P)) && mexp(p3.P) == old(mexp(p3.P)) && dom(p3.P) == 1)
+
+//@ afunc Ring.MulCoeffsMontgomeryThenSub#qp
+//@   property C01
+//@   nilable
+//@   requires isntt(p1.Q) && isntt(p2.Q) && isntt(p3.Q) && mexp(p3.Q) == mexp(p1.Q) + mexp(p2.Q) - 1 && isntt(p1.P) && isntt(p2.P) && isntt(p3.P) && mexp(p3.P) == mexp(p1.P) + mexp(p2.P) - 1
+//@   ensures implies(!isnil(r.RingQ), val(p3.Q) == old(val(p3.Q)) - old(val(p1.Q)) * old(val(p2.Q)) && mexp(p3.Q) == old(mexp(p3.Q)) && dom(p3.Q) == 1)
+//@   ensures implies(!isnil(r.RingP), val(p3.P) == old(val(p3.P)) - old(val(p1.P)) * old(val(p2.P)) && mexp(p3.P) == old(mexp(p3.P)) && dom(p3.P) == 1)
+
+//@ afunc Ring.MulCoeffsMontgomeryLazyThenSubLazy#qp
+//@   property C01
+//@   nilable
+//@   requires isntt(p1.Q) && isntt(p2.Q) && isntt(p3.Q) && mexp(p3.Q) == mexp(p1.Q) + mexp(p2.Q) - 1 && isntt(p1.P) && isntt(p2.P) && isntt(p3.P) && mexp(p3.P) == mexp(p1.P) + mexp(p2.P) - 1
+//@   ensures implies(!isnil(r.RingQ), val(p3.Q) == old(val(p3.Q)) - old(val(p1.Q)) * old(val(p2.Q)) && mexp(p3.Q) == old(mexp(p3.Q)) && dom(p3.Q) == 1)
+//@   ensures implies(!isnil(r.RingP), val(p3.P) == old(val(p3.P)) - old(val(p1.P)) * old(val(p2.P)) && mexp(p3.P) == old(mexp(p3.P)) && dom(p3.P) == 1)
+
 // ---------------------------------------------------------------------------------------------
 // Serialization, count level (property C08).  For every serializable type: WriteTo reports, on
 // success, exactly the number of bytes the value announces (announced(x): the result of running
